@@ -88,10 +88,65 @@ def expected_rung_levels(spec):
     return None if boundary else lv
 
 
+DEFAULT_MAX_T_KEYS = ("epochs", "max_t", "max_epochs")
+
+
+def documented_max_t(max_t_arg, max_resource_attr, consts):
+    """The documented rule for the maximum resource: the max_t argument takes precedence; otherwise the constant
+    config_space[max_resource_attr]; otherwise the first constant among config_space["epochs"], ["max_t"], ["max_epochs"]."""
+    if max_t_arg is not None:
+        return max_t_arg
+    if max_resource_attr is not None and max_resource_attr in consts:
+        return consts[max_resource_attr]
+    for k in DEFAULT_MAX_T_KEYS:
+        if k in consts:
+            return consts[k]
+    return None
+
+
+def gen_max_t_variant(rng, max_t):
+    """How the maximum resource reaches the constructor: explicitly, via config_space[max_resource_attr] (default or
+    non-default key name), or via a default-named constant; with distractor constants (other values) under default names."""
+    via = rng.choice(["arg", "arg", "arg_distractors", "attr_custom", "attr_custom", "attr_default", "default_key"])
+    other = lambda: rng.choice([v for v in (9, 16, 27, 50, 81, 100, 7) if v != max_t])
+    consts, arg, attr = {}, None, None
+    if via in ("arg", "arg_distractors"):
+        arg = max_t
+        if via == "arg_distractors":
+            for k in rng.sample(DEFAULT_MAX_T_KEYS, rng.randint(1, 3)):
+                consts[k] = other()
+            if rng.random() < 0.5:
+                attr = "num_steps"
+                consts[attr] = other()
+    elif via == "attr_custom":
+        attr = "num_steps"
+        consts[attr] = max_t
+        for k in rng.sample(DEFAULT_MAX_T_KEYS, rng.randint(0, 3)):
+            consts[k] = other()
+    elif via == "attr_default":
+        attr = rng.choice(DEFAULT_MAX_T_KEYS)
+        consts[attr] = max_t
+        for k in DEFAULT_MAX_T_KEYS:
+            if k != attr and rng.random() < 0.5:
+                consts[k] = other()
+    else:
+        keys = sorted(rng.sample(range(3), rng.randint(1, 3)))
+        for j, i in enumerate(keys):  # the first present default key (in the documented order) carries the value
+            consts[DEFAULT_MAX_T_KEYS[i]] = max_t if j == 0 else other()
+    return dict(max_t_via=via, max_t_arg=arg, max_resource_attr=attr, space_consts=consts)
+
+
 def hyperband_kwargs(spec):
     kw = dict(type=spec["type"], searcher="random", metric="m", mode=spec["mode"], resource_attr="epoch",
-              max_t=spec["max_t"], brackets=spec["brackets"], random_seed=spec.get("seed", 0),
+              brackets=spec["brackets"], random_seed=spec.get("seed", 0),
               rung_system_per_bracket=spec.get("per_bracket", False))
+    if "max_t_via" in spec:
+        if spec["max_t_arg"] is not None:
+            kw["max_t"] = spec["max_t_arg"]
+        if spec["max_resource_attr"] is not None:
+            kw["max_resource_attr"] = spec["max_resource_attr"]
+    else:
+        kw["max_t"] = spec["max_t"]
     if spec.get("rung_levels") is not None:
         kw["rung_levels"] = list(spec["rung_levels"])
     else:
